@@ -313,6 +313,37 @@ func c05RunProg(c *core.C, kind string, prog c05Prog) {
 	}
 	c.Count(fmt.Sprintf("rounds_%02d", min(want.Rounds, 20)), 1)
 
+	// the same program with the fact limit just above the size of its least model: it stays
+	// within the limit, so the run must still end without error on exactly the least model
+	// (a budget that also counts re-derived facts would stop short of it)
+	if want.Rounds >= 2 && len(want.Facts) > inputN {
+		c.Eval(1)
+		tight := datalog.NewWorld(datalog.WithMaxDuration(60*time.Second), datalog.WithMaxFacts(len(want.Facts)+1), datalog.WithMaxIterations(100000))
+		s2 := dl.NewSyms()
+		var tErr, tBack error
+		var tKeys []string
+		if pi := lib.Try(func() {
+			for _, f := range prog.Facts {
+				tight.AddFact(datalog.Fact{Predicate: s2.Pred(f)})
+			}
+			for _, rl := range prog.Rules {
+				tight.AddRule(s2.Rule(rl))
+			}
+			if tErr = tight.Run(s2.T); tErr == nil {
+				tKeys, tBack = s2.FactKeys(tight.Facts())
+			}
+		}); pi != nil {
+			c.Violate("run-panic/"+pi.Site, "World.Run panicked under a tight fact limit: "+pi.Msg, wit(nil))
+		} else if tErr != nil {
+			c.Violate("run-error-within-the-fact-limit/"+kind, fmt.Sprintf("least model of %d facts, limit %d: %v", len(want.Facts), len(want.Facts)+1, tErr), wit(nil))
+		} else if tBack == nil {
+			if m, e := diffKeys(want.Facts.Keys(), tKeys); len(m) > 0 || len(e) > 0 {
+				c.Violate("run-stops-short-near-the-fact-limit/"+kind, fmt.Sprintf("least model of %d facts, limit %d: Run returned nil with %d facts, missing %s", len(want.Facts), len(want.Facts)+1, len(tKeys), core.Head(strings.Join(m, " "), 200)), wit(map[string]any{"missing": m, "extra": e}))
+			}
+		}
+		c.Count("tight_fact_limit_runs", 1)
+	}
+
 	// queries on the completed world
 	for _, q := range prog.Queries {
 		c.Eval(1)
@@ -517,12 +548,35 @@ func c05RaceCount(tier string) int {
 	return 0
 }
 
+// c05RegexPair: two programs of the same shape evaluated one after the other, each with its own
+// symbol table, whose regular expressions differ although they are interned at the same symbol
+// index: whatever an evaluator remembers between programs must not be keyed by the index.
+func c05RegexPair(c *core.C) {
+	r := c.R
+	words := []string{"apple", "avocado", "banana", "blueberry", "cherry", "date", "elderberry", "fig"}
+	pats := []string{"^a", "^b", "y$", "an", "^[c-f]", "e.*e", "^$", "rr"}
+	i := r.Intn(len(pats))
+	j := (i + 1 + r.Intn(len(pats)-1)) % len(pats)
+	for _, pat := range []string{pats[i], pats[j], pats[i]} {
+		prog := c05Prog{}
+		for _, w := range words {
+			prog.Facts = append(prog.Facts, ast.P("word", ast.Str(w)))
+		}
+		e := ast.Expr{ast.OV(ast.Var("w")), ast.OV(ast.Str(pat)), ast.OB(int(ast.BRegex))}
+		prog.Rules = []ast.Rule{{Head: ast.P("hit", ast.Var("w")), Body: []ast.Pred{ast.P("word", ast.Var("w"))}, Exprs: []ast.Expr{e}}}
+		prog.Queries = []ast.Rule{{Head: ast.P("ans", ast.Var("w")), Body: []ast.Pred{ast.P("word", ast.Var("w"))}, Exprs: []ast.Expr{e}}}
+		c05RunProg(c, "regex-pair", prog)
+	}
+	c.Count("regex_pairs", 1)
+}
+
 func c05Run(c *core.C) {
 	nx := c05ExhaustiveCases()
 	switch {
 	case c.Idx < nx:
 		c05Exhaustive(c, c.Idx)
 	default:
+		c05RegexPair(c)
 		for i := 0; i < 20; i++ {
 			switch c.R.Intn(5) {
 			case 0, 1:
@@ -538,12 +592,13 @@ func c05Run(c *core.C) {
 
 func init() {
 	core.Register(&core.Prop{
-		ID:    "C05",
-		Level: "exploration",
+		ID:        "C05",
+		MinCounts: map[string]int{"tight_fact_limit_runs": 1000, "regex_pairs": 300},
+		Level:     "exploration",
 		Rule: "cases 0..420: bounded-exhaustive scope for the join enumerator - every body of 1-3 atoms over {p/1,q/2} with arguments {x,y,0,1} (8420 bodies) x every ordered duplicate-free fact list of length <=4 over six ground facts (517 lists): complete in thorough, a seeded 2% sample in quick. Later cases: 20 random programs each (untyped mixed-kind constants with repeated variables, typed schema programs with expression filters, recursive chain/cycle programs incl. mutual recursion), facts presented in shuffled order, World.Run and QueryRule compared with the reference least fixpoint R1 (naive iteration + back-tracking unification). thorough additionally repeats random programs under the race detector. " +
 			"Non-trivial = program whose least model is strictly larger than its input facts (distinct by program text), query with >=2 answers, exhaustive-scope point with >=1 answer.",
 		Assumptions: []string{"large limits (60 s, 1e6 facts, 1e5 iterations); a limit sentinel is recorded as inconclusive", "programs flagged lenient by R2 (mixed-kind set ops, non-boolean filters) are skipped and counted"},
-		NumCases: func(tier string) int { return c05ExhaustiveCases() + c05RandomCount(tier) + c05RaceCount(tier) },
+		NumCases:    func(tier string) int { return c05ExhaustiveCases() + c05RandomCount(tier) + c05RaceCount(tier) },
 		RaceFrom: func(tier string) int {
 			if tier == "thorough" {
 				return c05ExhaustiveCases() + c05RandomCount(tier)
